@@ -306,19 +306,25 @@ def replacePlayer (s : State) (sel : Sel) (to : Int) (only : Option Int) (incSrc
 /-- `_find_trigger_tree_nodes` -/
 def links (t : Trig) : List Int := (t.effs.filter (fun e => isAct e.kind)).map (·.link)
 
-/-- `_find_trigger_tree_nodes_recursively(trigger, known)`; `known` is returned instead of mutated.
-`fixed = false` is the pinned code: a target linked twice from one trigger enters `known` twice.
-`fixed = true` is the proposed repair (`fixes/F15-…`): the unknown indices are deduplicated. -/
+/-- `unknown_node_indexes = [i for i in found_node_indexes if i not in known_node_indexes]`.
+`fixed = false` is the pinned code: a target linked twice from one trigger is listed twice.
+`fixed = true` is the proposed repair (`fixes/F15-…`): `dict.fromkeys(found_node_indexes)` removes repetitions. -/
+def unknownOf (fixed : Bool) (known : List Int) (t : Trig) : List Int :=
+  if fixed then ((links t).filter (fun i => !known.contains i)).eraseDups
+  else (links t).filter (fun i => !known.contains i)
+
+/-- `_find_trigger_tree_nodes_recursively(trigger, known)`; `known` is returned instead of mutated -/
 def dfs (fixed : Bool) (s : State) : Nat → Nat → List Int → Except Err (List Int)
   | 0, _, _ => .error .fuel
-  | fuel + 1, a, known => do
-    let t ← heapGet s.heap a
-    let unknown0 := (links t).filter (fun i => !known.contains i)
-    let unknown := if fixed then unknown0.eraseDups else unknown0
-    if unknown.isEmpty then pure known
-    else unknown.foldlM (fun k i => do
-        let a' ← pyGet s.list i
-        dfs fixed s fuel a' k) (known ++ unknown)
+  | fuel + 1, a, known =>
+    match heapGet s.heap a with
+    | .error e => .error e
+    | .ok t =>
+      if (unknownOf fixed known t).isEmpty then .ok known
+      else (unknownOf fixed known t).foldlM (fun k i =>
+          match pyGet s.list i with
+          | .error e => .error e
+          | .ok a' => dfs fixed s fuel a' k) (known ++ unknownOf fixed known t)
 
 /-- `reorder_triggers` main loop: walk the new order, renumber the objects, collect `index_changes` -/
 def reorderLoop (list : List Nat) :
@@ -343,25 +349,31 @@ def remapLinks (ch : List (Int × Int)) (t : Trig) : Trig :=
       else e) }
 
 /-- `reorder_triggers(new_id_order)` -/
-def reorder (s : State) (newOrder : List Int) : Except Err State := do
+def reorder (s : State) (newOrder : List Int) : Except Err State :=
   if newOrder.isEmpty || newOrder.any (· < 0) then .error .value      -- `min(new_id_order) < 0`
   else
-    let (heap, nl, ch) ← reorderLoop s.list newOrder 0 s.heap [] []
-    -- `self.triggers = new_triggers_list` (the setter resets the display order), then the relinking loop
-    let heap' := nl.foldl (fun h a => h.modify a (remapLinks ch)) heap
-    pure { heap := heap', list := nl, order := (List.range nl.length).map (fun (i : Nat) => (i : Int)) }
+    match reorderLoop s.list newOrder 0 s.heap [] [] with
+    | .error e => .error e
+    | .ok (heap, nl, ch) =>
+      -- `self.triggers = new_triggers_list` (the setter resets the display order), then the relinking loop
+      .ok { heap := nl.foldl (fun h a => h.modify a (remapLinks ch)) heap, list := nl,
+            order := (List.range nl.length).map (fun (i : Nat) => (i : Int)) }
 
 /-- `move_triggers(trigger_ids, insert_index)` -/
-def moveTriggers (s : State) (ids : List Int) (insertIndex : Int) : Except Err State := do
+def moveTriggers (s : State) (ids : List Int) (insertIndex : Int) : Except Err State :=
   if ids.isEmpty || ids.any (· < 0) then .error .value                -- `min(trigger_ids) < 0`
   else if insertIndex ≥ (s.order.length : Int) then
     reorder s (s.order.filter (fun n => !ids.contains n) ++ ids)
   else
-    let insertNum ← pyGet s.order insertIndex
-    let l := s.order.filter (fun n => !ids.contains n || n == insertNum)
-    let split ← pyIndexOf l insertNum
-    let l := if ids.contains insertNum then l.erase insertNum else l
-    reorder s (l.take split ++ ids ++ l.drop split)
+    match pyGet s.order insertIndex with
+    | .error e => .error e
+    | .ok insertNum =>
+      match pyIndexOf (s.order.filter (fun n => !ids.contains n || n == insertNum)) insertNum with
+      | .error e => .error e
+      | .ok split =>
+        let l0 := s.order.filter (fun n => !ids.contains n || n == insertNum)
+        let l := if ids.contains insertNum then l0.erase insertNum else l0
+        reorder s (l.take split ++ ids ++ l.drop split)
 
 /-- `new_triggers.setdefault(player, []).append(trigger)` -/
 def dictPush : List (Int × List Nat) → Int → Nat → List (Int × List Nat)
